@@ -76,3 +76,4 @@ fn codepage_wiring() {
         assert!(same(e, want));
     }
 }
+
